@@ -83,6 +83,16 @@ def phase_a(seed, tier, i, st):
     else:
         steps.append(dict(base, via="argument", backend=cfg.choice(["sim-api", "cbc-wrapper", "highs-wrapper"]),
                           fault={"kind": "ok", "tie": 0}))
+    if knotted and i % 5 == 0:
+        # history: an earlier conversion in the same process met a solver failure.  Not judged itself (that is
+        # C13's business); what is judged is that the *following* healthy conversions are still optimal, i.e.
+        # that nothing sticky (a 'solver is broken' flag, a changed solver option) survives the failure.
+        warm = structures.layout(structures.TEMPLATES["htype"], [1, 1], [0, 0, 0, 0, 0])
+        backend, kind = cfg.choice([("sim-api", "raise_before"), ("sim-api", "status_infeasible"),
+                                    ("cbc-wrapper", "exit_nonzero"), ("cbc-wrapper", "infeasible"),
+                                    ("highs-wrapper", "exit_minus1"), ("none", "ok")])
+        steps.insert(0, {"triples": warm, "op": "dot_bracket", "via": "property", "backend": backend,
+                         "fault": {"kind": kind, "assign": "none", "tie": 0}, "unjudged": True})
     return {"property": NAME, "family": st["family"], "steps": steps}
 
 
@@ -120,6 +130,8 @@ def run_index(seed, tier, i, tmpdir):
     notations = set()
     real_notations = []
     for step, obs in zip(run_a["steps"], res_a["observations"]):
+        if step.get("unjudged"):
+            continue
         if obs.get("discard"):
             out["discards"] += 1
             continue
@@ -129,7 +141,7 @@ def run_index(seed, tier, i, tmpdir):
             else:
                 notations.add(obs["db"][1])
             out["coverage"].append(rng.digest([sig, step["backend"], obs["db"][1]])[:20])
-    first = res_a["observations"][0]
+    first = [o for s_, o in zip(run_a["steps"], res_a["observations"]) if not s_.get("unjudged")][0]
     n_opt = first["solves"][0].get("n_optima", 0) if first.get("solves") else 0
     out["n_optima"] = n_opt
     if first.get("solves") and first["solves"][0].get("truncated"):
